@@ -19,6 +19,7 @@ func verifQuiesce()
 func verifLiveThreads() int
 func verifAssertNoLiveThreads(label string)
 func verifAssertNoLiveThreadsExcept(label string, allowedSite string)
+func verifAdvanceMs(ms int) // a short stretch of time passes: only timers whose duration has run out expire
 func verifAdvanceTime()
 func verifSymbolicClock()
 func verifHelperExit(code int)
